@@ -130,6 +130,7 @@ func (e *Enc) instr(fr *Frame, in ssa.Instruction) {
 		ln := e.val(fr, x.Len).(T)
 		cp := e.val(fr, x.Cap).(T)
 		base := e.newAllocRef("mkslice")
+		e.noteAllocAt(base, fr, x.Block())
 		el := x.Type().Underlying().(*types.Slice).Elem()
 		e.siteMake(fr, x, ln, cp)
 		sv := &SliceV{Base: base, Off: IntLit(0), Len: ln, Cap: cp, Elem: el}
@@ -208,6 +209,14 @@ func (e *Enc) retype(v Val, t types.Type) Val {
 	return v
 }
 
+// noteAllocAt remembers the program point that created an allocation constant (iterfresh).
+func (e *Enc) noteAllocAt(ref T, fr *Frame, b *ssa.BasicBlock) {
+	if e.allocAt == nil {
+		e.allocAt = map[string]allocPoint{}
+	}
+	e.allocAt[ref.S] = allocPoint{fr: fr, b: b}
+}
+
 func (e *Enc) newAllocRef(hint string) T {
 	e.allocN++
 	c := e.s.Const(fmt.Sprintf("alloc:%s", hint), SInt)
@@ -242,6 +251,7 @@ func (e *Enc) alloc(fr *Frame, x *ssa.Alloc) {
 			}
 		}
 		ref := e.newAllocRef(x.Comment)
+		e.noteAllocAt(ref, fr, x.Block())
 		pv := &PtrV{A: Addr{Kind: ARef, Base: ref}, Elem: et}
 		e.store(fr.curState, pv.A, et, e.zero(et))
 		e.setVal(fr, x, pv)
